@@ -68,7 +68,7 @@ Section Interp.
     @segment_of RNum pts l r = map (fun i => nth i pts d0) (seq l (S (r - l))).
   Proof.
     intros H. unfold segment_of, slice. replace (r + 1 - l)%nat with (S (r - l)) by lia.
-    apply slice_map_nth. lia.
+    apply (slice_map_nth d0 l (S (r - l)) pts). destruct H. lia.
   Qed.
 
   (* the end-point fit of points[l:r+1], in closed form *)
@@ -83,7 +83,7 @@ Section Interp.
     assert (Hlast : last (h l :: map h (seq (S l) (r - l))) (h l) = h r).
     { change (h l :: map h (seq (S l) (r - l))) with (map h (seq l (S (r - l)))).
       rewrite seq_S, map_app. cbn [map]. rewrite last_last. f_equal. lia. }
-    rewrite Hlast.
+    change (nth l pts d0) with (h l). rewrite Hlast.
     change (fst (h l)) with (X l). change (snd (h l)) with (Y l). change (fst (h r)) with (X r). change (snd (h r)) with (Y r).
     change (@eqb RNum) with Reqb. change (@sub RNum) with Rminus. change (@zero RNum) with 0.
     assert (E : Reqb (X l - X r) 0 = false) by (apply Reqb_false; lra). rewrite E. reflexivity.
